@@ -219,9 +219,31 @@ impl Check for HistoryCheck {
 
             // record new equal pairs (sampled)
             let nt = s.tracked.len();
-            if nt > 0 && equal_pairs.len() < 400 {
+            if nt > 0 && equal_pairs.len() < 600 {
                 let rec = catch_op(|| {
                     let mut newp = Vec::new();
+                    // every symmetry of every tracked term that holds now (recorded once)
+                    for i in 0..nt {
+                        if s.tracked[i].at_op + 1 < k && !orng.chance(1, 4) {
+                            continue;
+                        }
+                        let ti = s.tracked[i].tm.clone();
+                        let hi = s.tracked[i].h.clone();
+                        let fs = ti.free_vec();
+                        if fs.len() < 2 || fs.len() > 4 {
+                            continue;
+                        }
+                        for rho in relative_renamings(&fs, &fs, &[]) {
+                            if rho.iter().all(|(a, b)| a == b) {
+                                continue;
+                            }
+                            let hj = s.handle_inst(i, &rho);
+                            if s.eg.eq(&hi, &hj) {
+                                let mut fr = 3000;
+                                newp.push((hi.clone(), hj, k, format!("{} = {}", ti, ti.rename(&rho, &mut fr))));
+                            }
+                        }
+                    }
                     for _ in 0..6 {
                         let i = orng.below(nt);
                         let j = orng.below(nt);
